@@ -1,4 +1,4 @@
-import CssVerif.Model.Decl
+import CssVerif.Model.DeclText
 /-!
 Driver for C10 (stateful). The tokenizer and the value grammar are parameters of the model (`Decl.Env`); the
 harness fills their tables (`tok`, `val`, `idn` lines) from the real `Tokenizer` / `PropertyValue`. Every operation
@@ -14,6 +14,12 @@ structure St where
   raising : Bool := true
   d : Decl := { seq := [] }
   v : Vars := { vars := [], seq := [] }
+  /-- serializer preferences in force for the `ptext` / `psep` / `vptext` requests -/
+  prefs : SPrefs := {}
+  /-- `PropertyValue.cssText` under `prefs`, keyed by the cssText under the default preferences -/
+  vts : List (Cps × Cps) := []
+  /-- `property.valid`, keyed by name, value text and priority -/
+  valids : List ((Cps × Cps × Cps) × Bool) := []
 
 def lookup {β : Type} (l : List (Cps × β)) (k : Cps) : Option β :=
   match l.find? (fun e => e.1 == k) with
@@ -34,6 +40,21 @@ def St.env (s : St) (alt : Bool) : Env :=
     isIdent := fun t => match lookup s.idns t with
       | some r => r
       | none => alt }
+
+/-- render environment for the preferences in force; `alt` selects what a missing table entry answers -/
+def St.renv (s : St) (alt : Bool) : REnv :=
+  { vtext := fun v => match lookup s.vts v.css with
+      | some r => r
+      | none => if alt then sentinel else []
+    valid := fun p => match s.valids.find? (fun e => e.1 == (p.name, p.val.css, p.prio)) with
+      | some e => e.2
+      | none => alt }
+
+/-- a text computed under both render environments -/
+def rtext (st : St) (f : REnv → Cps) : String :=
+  let a := f (st.renv false)
+  let b := f (st.renv true)
+  if a == b then encCps a else "missing"
 
 def decTok (w : String) : Option Tok :=
   match w.splitOn ":" with
@@ -95,6 +116,7 @@ def showObs (d : Decl) : String :=
     "keys=" ++ showList ((keys s).map encCps),
     "items=" ++ showList ((range (-(n + 1)) (n + 1)).map (fun i => encCps (item s i))),
     "text=" ++ encCps (cssText s),
+    "ptext=" ++ encCps (cssTextP SPrefs.default REnv.default s),
     "ro=" ++ (if d.readonly then "1" else "0")]
 
 def showVObs (v : Vars) : String :=
@@ -107,7 +129,32 @@ def showVObs (v : Vars) : String :=
       | .var nm val => "var/" ++ encCps nm ++ "/" ++ encCps val.css
       | .other t => "other/" ++ encCps t)),
     "reported=" ++ showList ((vReported v).map (fun e => encCps e.1 ++ "/" ++ encCps e.2)),
-    "serialized=" ++ showList ((vSerialized v).map (fun e => encCps e.1 ++ "/" ++ encCps e.2))]
+    "serialized=" ++ showList ((vSerialized v).map (fun e => encCps e.1 ++ "/" ++ encCps e.2)),
+    "text=" ++ encCps (vCssTextP SPrefs.default REnv.default 1 v)]
+
+def showBool (b : Bool) : String := if b then "1" else "0"
+
+def showPrefs (p : SPrefs) : String :=
+  " ".intercalate [showBool p.keepAllProperties, showBool p.keepComments, showBool p.omitLastSemicolon,
+    showBool p.defaultPropertyName, showBool p.defaultPropertyPriority, showBool p.validOnly,
+    showBool p.normalizedVarNames, showBool p.indentClosingBrace, encCps p.lineSeparator,
+    encCps p.propertyNameSpacer, encCps p.spacer, encCps p.listItemSpacer, encCps p.paranthesisSpacer,
+    encCps p.indent]
+
+def decPrefs (ws : List String) : Option SPrefs :=
+  match ws with
+  | [a, b, c, d, e, f, g, h, ls, pns, sp, lis, ps, ind] =>
+    match decBool a, decBool b, decBool c, decBool d, decBool e, decBool f, decBool g, decBool h with
+    | some a, some b, some c, some d, some e, some f, some g, some h =>
+      match decCps ls, decCps pns, decCps sp, decCps lis, decCps ps, decCps ind with
+      | some ls, some pns, some sp, some lis, some ps, some ind =>
+        some { keepAllProperties := a, keepComments := b, omitLastSemicolon := c, defaultPropertyName := d,
+               defaultPropertyPriority := e, validOnly := f, normalizedVarNames := g, indentClosingBrace := h,
+               lineSeparator := ls, propertyNameSpacer := pns, spacer := sp, listItemSpacer := lis,
+               paranthesisSpacer := ps, indent := ind }
+      | _, _, _, _, _, _ => none
+    | _, _, _, _, _, _, _, _ => none
+  | _ => none
 
 def decSrc (w : String) : Option SrcItem :=
   match w.splitOn ":" with
@@ -238,6 +285,21 @@ def step (st : St) (line : String) : St × String :=
     | some n => (st, if vContains st.v n then "1" else "0")
     | none => bad st
   | ["vobs"] => (st, showVObs st.v)
+  | ["pdef"] => (st, showPrefs SPrefs.default)
+  | "prefs" :: ws => match decPrefs ws with
+    | some p => ({ st with prefs := p, vts := [], valids := [] }, "ok")
+    | none => bad st
+  | ["vt", c, t] => match decCps c, decCps t with
+    | some c, some t => ({ st with vts := (c, t) :: st.vts }, "ok")
+    | _, _ => bad st
+  | ["pvalid", n, c, pr, b] => match decCps n, decCps c, decCps pr, decBool b with
+    | some n, some c, some pr, some b => ({ st with valids := ((n, c, pr), b) :: st.valids }, "ok")
+    | _, _, _, _ => bad st
+  | ["ptext"] => (st, rtext st (fun re => cssTextP st.prefs re st.d.seq))
+  | ["psep", sep] => match decCps sep with
+    | some sep => (st, rtext st (fun re => cssTextSep st.prefs re sep true st.d.seq))
+    | none => bad st
+  | ["vptext"] => (st, rtext st (fun re => vCssTextP st.prefs re 1 st.v))
   | _ => bad st
 
 def main : IO Unit := serveSt ({} : St) step
